@@ -221,11 +221,12 @@ def known_probes(res):
         db.cmd("mktable q a:i:s,b:i:n")
         db.cmd("rawinsert q n i:1")
         db.cmd("rawinsert q i:5 i:2")
+        db.cmd("rawinsert q i:0 i:3")
         db.cmd("stats")
         got = db.sql("SELECT b FROM q WHERE a = 0;")
-        if got != "ok:":
-            res.known_hits["F-NULL-KEY"] = ("a NULL in an indexed column is indexed under the type's zero value; an index scan that reaches it aborts the statement: "
-                                            "SELECT b FROM q WHERE a = 0 answers %s, reference: no rows" % got[:60])
+        if got != "ok:i:3":
+            res.known_hits["F-NULL-KEY"] = ("a NULL in an indexed column is indexed under the type's zero value; an index scan for that value reaches the NULL row's entry and the statement is aborted: "
+                                            "rows (NULL,1) (5,2) (0,3): SELECT b FROM q WHERE a = 0 answers %s, reference: i:3" % got[:60])
     finally:
         db.destroy()
     # a row that does not fit into an empty page: TableHeap.InsertTuple walks / allocates pages forever (Props/C14Heap.v:
